@@ -29,8 +29,16 @@ def trains(case):
                 arg = np.array(tr, dtype=float)
             out.append(pyspike.SpikeTrain(arg, [case["t0"], case["t1"]]))
         return out
-    return [pyspike.SpikeTrain(np.array(tr, dtype=float), [case["t0"], case["t1"]])
-            for tr in case["trains"]]
+    out = [pyspike.SpikeTrain(np.array(tr, dtype=float), [case["t0"], case["t1"]])
+           for tr in case["trains"]]
+    if case.get("alias_equal"):
+        # equal trains are ONE object sitting at several positions of the list
+        for a in range(len(out)):
+            for b in range(a):
+                if case["trains"][a] == case["trains"][b]:
+                    out[a] = out[b]
+                    break
+    return out
 
 
 def fr_trains(case):
